@@ -657,10 +657,7 @@ func rulesC04(c *Ctx) {
 					continue
 				}
 				guards := lg.GuardsAt(rv)
-				okG := hasAtom(guards, func(a Atom) bool {
-					u, ok := a.E.(*ast.CallExpr)
-					return ok && !a.Val && l.IsCallTo(u, isCall)
-				}) && hasAtom(guards, func(a Atom) bool {
+				okG := hasAtom(guards, func(a Atom) bool { return atomSaysIsCall(l, a, isCall, false) }) && hasAtom(guards, func(a Atom) bool {
 					x, y, op, ok := binaryCmp(a.E)
 					z, isZ := l.ConstInt(y)
 					return ok && op == token.GTR && a.Val && l.IsField(x, outN) && isZ && z == 0
@@ -681,7 +678,7 @@ func rulesC04(c *Ctx) {
 						if id, isId := a.E.(*ast.Ident); isId && a.Val && l.ObjOf(id) != nil && l.ObjOf(id) == typeAssertOKVar(l, "internal/jsonrpc2", "Request") {
 							rec = true // the comma-ok of the type assertion in the if's init
 						}
-						if ce, isC := a.E.(*ast.CallExpr); isC && !a.Val && l.IsCallTo(ce, isCall) {
+						if atomSaysIsCall(l, a, isCall, false) {
 							rec = true
 						}
 						if x, y, op, isCmp := binaryCmp(a.E); isCmp && op == token.GTR && a.Val && l.IsField(x, outN) {
@@ -898,7 +895,22 @@ func ruleWriteErrGuard(c *Ctx) {
 				continue
 			}
 			if def := wr.valueOf(a.E); def != a.E {
-				if b, isB := wr.TypeOf(a.E).Underlying().(*types.Basic); isB && b.Info()&types.IsBoolean != 0 {
+				// ... provided it was computed after the write returned: the context is asked when the failure is classified,
+				// a sample taken before the write blames a context that expired during it on the transport
+				afterWrite := false
+				for v := 0; v < g.N; v++ {
+					if g.Node(v) == nil {
+						continue
+					}
+					for _, cl := range wr.AllCalls(g.Node(v), false) {
+						if fn := wr.Callee(cl); fn != nil && fn.Name() == "Write" {
+							if sel, ok := ast.Unparen(cl.Fun).(*ast.SelectorExpr); ok && strings.HasSuffix(wr.FieldPath(sel.X), ".writer") && g.ReachableFrom(v)[g.VertexOf(def)] && !g.ReachableFrom(g.VertexOf(def))[v] {
+								afterWrite = true
+							}
+						}
+					}
+				}
+				if b, isB := wr.TypeOf(a.E).Underlying().(*types.Basic); isB && b.Info()&types.IsBoolean != 0 && afterWrite {
 					splitAtoms(def, a.Val, &guards)
 				}
 			}
